@@ -29,7 +29,10 @@ class SrvTransport(asyncio.Transport):
       /redir/<n>/<mode>     n>0: 302 -> /redir/<n-1>/<mode>, else 200; <mode> = how the body of the 3xx arrives
       /ok/<mode>            200
          modes: empty | full | partial (head + first bytes now, rest 60 virtual s later) |
-                chunkpart (chunked, last chunk 60 s later) | eofbody (no length, peer never closes)
+                chunkpart (chunked, last chunk 60 s later) | eofbody (no length, peer never closes) |
+                closedelim / http10 (no length, the peer closes after the body) | fulldrop (complete body, then the
+                peer drops the connection at once) | dropmid (peer drops in the middle of the body)
+      /ws/<variant>         WebSocket upgrade answered per variant (see _ws)
       /early/<status>/<keep|close>   the peer does not read the request body (write side pauses above
                 HIGH_WATER) and answers at once: 204, 200 (empty) or 307 -> /ok/full
       /reset                the peer closes the connection after the request head
@@ -98,6 +101,10 @@ class SrvTransport(asyncio.Transport):
             if self.buffered > HIGH_WATER and not self.proto._paused:
                 self.proto.pause_writing()
             return
+        if getattr(self, "ws_open", False):
+            # upgraded: answer whatever the client sends (its close frame) with a close frame 1000
+            self.loop.call_soon(self.feed, b"\x88\x02\x03\xe8")
+            return
         self.buf += data
         self._process()
 
@@ -127,6 +134,10 @@ class SrvTransport(asyncio.Transport):
                 self.buf = self.buf[i + 4:]
                 self._connect()
                 continue
+            if path.startswith("/ws/"):
+                self.buf = self.buf[i + 4:]
+                self._ws(path.split("/")[2], head)
+                continue
             if path.startswith("/early/"):
                 rest = self.buf[i + 4:]
                 self.buf = b""
@@ -155,6 +166,47 @@ class SrvTransport(asyncio.Transport):
                     return
             self.buf = self.buf[end:]
             self._answer(path)
+
+    def _ws(self, variant, head):
+        """Answer a WebSocket upgrade.  variant: ok | deflate | ext_bad | ext_wbits | ext_other | proto_ok |
+        proto_unknown | status200 | status403 | bad_upgrade | bad_connection | bad_accept | no_accept"""
+        import base64
+        import hashlib
+        m = re.search(rb"sec-websocket-key:\s*(\S+)", head, re.I)
+        key = m.group(1) if m else b""
+        accept = base64.b64encode(hashlib.sha1(key + b"258EAFA5-E914-47DA-95CA-C5AB0DC85B11").digest())
+        lines = {"status": b"HTTP/1.1 101 Switching Protocols", "upgrade": b"Upgrade: websocket",
+                 "connection": b"Connection: upgrade", "accept": b"Sec-WebSocket-Accept: " + accept}
+        extra = []
+        if variant == "deflate":
+            extra.append(b"Sec-WebSocket-Extensions: permessage-deflate")
+        elif variant == "ext_bad":
+            extra.append(b"Sec-WebSocket-Extensions: permessage-deflate; unknown_parameter=1")
+        elif variant == "ext_wbits":
+            extra.append(b"Sec-WebSocket-Extensions: permessage-deflate; server_max_window_bits=20")
+        elif variant == "ext_other":
+            extra.append(b"Sec-WebSocket-Extensions: x-not-deflate")
+        elif variant == "proto_ok":
+            extra.append(b"Sec-WebSocket-Protocol: chat")
+        elif variant == "proto_unknown":
+            extra.append(b"Sec-WebSocket-Protocol: zzz")
+        elif variant == "status200":
+            lines["status"] = b"HTTP/1.1 200 OK"
+            extra.append(b"Content-Length: 0")
+        elif variant == "status403":
+            lines["status"] = b"HTTP/1.1 403 Forbidden"
+            extra.append(b"Content-Length: 0")
+        elif variant == "bad_upgrade":
+            lines["upgrade"] = b"Upgrade: h2c"
+        elif variant == "bad_connection":
+            lines["connection"] = b"Connection: keep-alive"
+        elif variant == "bad_accept":
+            lines["accept"] = b"Sec-WebSocket-Accept: AAAAAAAAAAAAAAAAAAAAAAAAAAA="
+        elif variant == "no_accept":
+            del lines["accept"]
+        if lines["status"].startswith(b"HTTP/1.1 101"):
+            self.ws_open = True
+        self.loop.call_soon(self.feed, b"\r\n".join(list(lines.values()) + extra) + b"\r\n\r\n")
 
     def _connect(self):
         mode = self.world.connect_mode
@@ -202,6 +254,18 @@ class SrvTransport(asyncio.Transport):
             self.later(60, b"0\r\n\r\n")
         elif mode == "eofbody":
             self.loop.call_soon(self.feed, start + b"\r\n" + BODY[:10])
+        elif mode == "closedelim":       # body delimited by the end of the connection: EOF arrives from connection_lost
+            self.loop.call_soon(self.feed, start + b"Connection: close\r\n\r\n" + BODY)
+            self.timers.append(self.loop.call_later(0.01, self.peer_close))
+        elif mode == "http10":
+            self.loop.call_soon(self.feed, start.replace(b"HTTP/1.1", b"HTTP/1.0") + b"\r\n" + BODY)
+            self.timers.append(self.loop.call_later(0.01, self.peer_close))
+        elif mode == "fulldrop":         # complete body, then the peer drops the connection right away
+            self.loop.call_soon(self.feed, start + b"Content-Length: %d\r\n\r\n" % len(BODY) + BODY)
+            self.loop.call_soon(self.peer_close)
+        elif mode == "dropmid":          # the peer drops the connection in the middle of the body
+            self.loop.call_soon(self.feed, start + b"Content-Length: %d\r\n\r\n" % len(BODY) + BODY[:10])
+            self.timers.append(self.loop.call_later(0.01, self.peer_close))
         else:
             self.loop.call_soon(self.feed, start + b"Content-Length: 0\r\n\r\n")
 
@@ -313,7 +377,22 @@ async def run_scenario(loop, sc):
                 kw["max_redirects"] = spec["max_redirects"]
             consume = spec.get("consume", "read")
 
+            async def one_ws():
+                ws = await session.ws_connect(url, compress=spec.get("compress", 0), protocols=tuple(spec.get("protocols", ())),
+                                              timeout=aiohttp.ClientWSTimeout(ws_close=1.0), **({"proxy": kw["proxy"]} if "proxy" in kw else {}))
+                try:
+                    if consume != "status":
+                        await ws.close()
+                    else:
+                        ws._response.close()
+                except BaseException:
+                    ws._response.close()
+                    raise
+                return ws._response
+
             async def one():
+                if spec.get("ws"):
+                    return await one_ws()
                 resp = await session.request(spec.get("method", "GET"), url, **kw)
                 try:
                     if consume == "read":
@@ -424,26 +503,36 @@ def run(sc):
 
 # ---- generation ------------------------------------------------------------------------------------
 
-MODES = ["empty", "full", "partial", "chunkpart", "eofbody"]
+MODES = ["empty", "full", "partial", "chunkpart", "eofbody", "closedelim", "http10", "fulldrop", "dropmid"]
+WS_VARIANTS = ["ok", "deflate", "ext_bad", "ext_wbits", "ext_other", "proto_ok", "proto_unknown", "status200", "status403",
+               "bad_upgrade", "bad_connection", "bad_accept", "no_accept"]
 
 
 def gen_request(rng):
     r = rng.random()
     spec: dict = {}
-    if r < 0.30:
+    if r < 0.16:
+        v = rng.choice(WS_VARIANTS)
+        spec.update({"ws": True, "path": f"/ws/{v}", "compress": rng.choice([0, 15, 15, 9]),
+                     "protocols": rng.choice([[], ["chat"], ["chat", "v2"]]), "consume": rng.choice(["close", "close", "status"]),
+                     "host": rng.choice(["srv.example", "b.example"])})
+        if rng.random() < 0.2:
+            spec["cancel_after"] = rng.randint(0, 10)
+        return spec
+    if r < 0.36:
         n = rng.randint(1, 4)
-        spec["path"] = f"/redir/{n}/{rng.choice(MODES[:4])}"
+        spec["path"] = f"/redir/{n}/{rng.choice(MODES[:4] + MODES[5:8])}"
         spec["max_redirects"] = rng.choice([n - 1, n, n + 1, 10]) or 1
-    elif r < 0.50:
+    elif r < 0.56:
         spec["path"] = f"/ok/{rng.choice(MODES)}"
-    elif r < 0.72:
+    elif r < 0.74:
         spec["path"] = f"/early/{rng.choice(['204', '307', '200'])}/{rng.choice(['keep', 'close'])}"
         spec["method"] = "POST"
         spec["body"] = rng.choice(["gen", "chunked", "bytes"])
-    elif r < 0.80:
+    elif r < 0.82:
         spec["path"] = rng.choice(["/reset", "/garbage", "/hang"])
     else:
-        spec["path"] = f"/ok/{rng.choice(MODES[:3])}"
+        spec["path"] = f"/ok/{rng.choice(MODES[:3] + MODES[5:8])}"
         spec["proxy"] = True
         spec["https"] = rng.random() < 0.75
     if "method" not in spec and rng.random() < 0.2:
